@@ -15,6 +15,12 @@
 extern unsigned long long vm_clock_s, vm_clock_ns;   /* time slept so far, normalised pair */
 extern struct timespec vm_sleep_first_req, vm_sleep_last_rem; extern int vm_sleep_pending_rem;
 extern int vm_sleep_calls, vm_sleep_intr_left, vm_sleep_intr_taken, vm_sleep_errno_mode;
+#ifdef VM_SLEEP_HOOK
+/* re-entrancy hook supplied by the harness (-DVM_SLEEP_HOOK): called inside the model of a sleep at its entry (0) and
+ * after an interruption has stored the remaining time, before the call returns (1); the harness may run a complete
+ * second p_uthread_sleep of ANOTHER thread there (it saves / restores the per-sleeper ghost state above) */
+void vm_sleep_hook(int point);
+#endif
 int vm_clock_nanosleep(clockid_t clk, int flags, const struct timespec *req, struct timespec *rem);
 int vm_nanosleep(const struct timespec *req, struct timespec *rem);
 #ifndef CLOCK_MODEL_NO_REDIRECT
